@@ -40,12 +40,33 @@ pub fn guard<F: FnOnce() -> String>(f: F) -> String {
     }
 }
 
-pub struct Out { w: std::io::BufWriter<std::io::Stdout>, pub n: usize }
+/// the case currently being executed and when it started (watched by `start_watchdog`)
+pub static CURRENT: std::sync::Mutex<Option<(String, std::time::Instant)>> = std::sync::Mutex::new(None);
+
+/// a call of the real code that does not return within `secs` seconds is reported as a failed case (non-termination) and the
+/// harness stops (the stuck thread cannot be cancelled)
+pub fn start_watchdog(secs: u64) {
+    std::thread::spawn(move || loop {
+        std::thread::sleep(std::time::Duration::from_millis(500));
+        let cur = CURRENT.lock().unwrap().clone();
+        if let Some((lhs, t0)) = cur {
+            if t0.elapsed().as_secs() >= secs {
+                println!("!FAIL {} :: the call did not return within {} s (non-termination) # timeout", lhs, secs);
+                let _ = std::io::stdout().flush();
+                std::process::exit(0);
+            }
+        }
+    });
+}
+
+pub struct Out { w: std::io::LineWriter<std::io::Stdout>, pub n: usize }
 impl Out {
-    pub fn new() -> Self { Out { w: std::io::BufWriter::new(std::io::stdout()), n: 0 } }
+    pub fn new() -> Self { Out { w: std::io::LineWriter::new(std::io::stdout()), n: 0 } }
     /// one case: `fn args => impl-output [# class]`
     pub fn case(&mut self, lhs: &str, class: &str, f: impl FnOnce() -> String) {
+        *CURRENT.lock().unwrap() = Some((lhs.chars().take(2000).collect(), std::time::Instant::now()));
         let r = guard(f);
+        *CURRENT.lock().unwrap() = None;
         writeln!(self.w, "{} => {} # {}", lhs, r, class).unwrap();
         self.n += 1;
     }
